@@ -263,13 +263,21 @@ def hexOf (x : Float) : String :=
 
 def showFloats {n : Nat} (v : Vector Float n) : String := " ".intercalate (v.toList.map hexOf)
 
+/-- `body_jntadr` is -1 for a body without joints (`body_jntnum = 0`, the C loop body never runs): read as 0 -/
+def jntAdr? (jadr jnum : String) : Option (List Nat) :=
+  match ints? jadr, nats? jnum with
+  | some a, some m =>
+    if a.length ≠ m.length then none else
+    (a.zip m).mapM fun (x, k) => if x ≥ 0 then some x.toNat else if x = -1 ∧ k = 0 then some 0 else none
+  | _, _ => none
+
 def opAdvance (a : List String) : String :=
   match a with
   | [hd, tl, ta, qpos, qvel, qacc, codes, treeid, parent, root, mocap, dofbody, adr, num, doflen, jadr, jnum, jdof] =>
     match nats? hd, floats? tl, ints? ta, floats? qpos, floats? qvel, floats? qacc, groups? codes with
     | some [en], some [tol, dt], some ta, some qpos, some qvel, some qacc, some codes =>
       match ints? treeid, ints? parent, ints? root, ints? mocap, ints? dofbody, nats? adr, nats? num,
-            floats? doflen, nats? jadr, nats? jnum, nats? jdof with
+            floats? doflen, jntAdr? jadr jnum, nats? jnum, nats? jdof with
       | some treeid, some parent, some root, some mocap, some dofbody, some adr, some num, some doflen,
         some jadr, some jnum, some jdof =>
         let n := ta.length
